@@ -16,6 +16,8 @@ def obligations(tier):
            bounds="roll-up depth 2/3/4 x 1-3 rows x short or long rows x base row 14/15 x single/doubled codes x drop/non-drop x carriage return before or after the row"),
         ch("painton", "harness.C16_rollup", timeout=T, functions=F, exhaustive=True, bounds="paint-on, 1-3 rows on adjacent or separate screen rows, short/long, single/doubled, drop/non-drop"),
         ch("mode_switch", "harness.C16_rollup", timeout=T, functions=F, exhaustive=True, bounds="one row in one of the four modes followed by a row in another mode (12 ordered pairs), single/doubled"),
+        ch("painton_multi_position", "harness.C16_rollup", timeout=T, functions=F + ("fix_last_captions_without_ending",), exhaustive=True,
+           bounds="a final paint-on block painting 1-3 separate screen positions, optionally preceded by another block, single/doubled, drop/non-drop: every part has start < end and the parts end together"),
         ch("stamps_and_full_rows", "harness.C16_rollup", timeout=T, functions=F, exhaustive=True,
            bounds="three rows in each of the four modes; line stamps from 00:00:00:00, or with the last line's transmission crossing the minute (second 59, frame 20), or crossing the hour; rows of a few or of all 32 columns; single/doubled; drop/non-drop"),
     ]
